@@ -126,7 +126,7 @@ Definition of_bres (r : bres) : res value :=
 Fixpoint array_mem (x : value) (l : list value) : option bool :=
   match l with
   | [] => Some false
-  | y :: l' => match same_printed o x y with
+  | y :: l' => match same_value o x y with
                | Some true => Some true
                | Some false => array_mem x l'
                | None => None
@@ -226,7 +226,7 @@ Definition vm_range (a b : value) : res value :=
   end.
 
 Definition vm_case (v c : value) : res value :=
-  match same_printed o v c with
+  match same_value o v c with
   | None => Err ENeedOracle
   | Some true => Ok (VBool true)
   | Some false =>
